@@ -548,6 +548,109 @@ def run(ctx):
         judge.run_and_judge(ctx, "lengths-" + key, [LIMIT] + lst, [h], [drv], oracle=oracle, env=ENV, key_of=key_of, what="message codec")
 
 
+def ctx_reuse(ctx, h):
+    """One munge_ctx_t used for a sequence of calls, the way applications use libmunge: encodes, decodes, failing decodes,
+    munge_ctx_copy, calls with a NULL context, option changes in between.  What a call leaves in the context (error string,
+    realm, unpacked reply fields) must never disturb the next one: under ASan (double free / use after free of strings the
+    context took over from a reply), and judged per call."""
+    r = ctx.rng
+    ops, plans = [], []
+    for i in range(120 if ctx.tier == "quick" else 1500):
+        toks, plan, slots, decoded, used = [], [], [], set(), set()
+        valid = True       # munge_decode stores the credential's options in the context (zeroes after a failed decode): an encode that
+                           # re-uses such a context may be refused ("Invalid MAC type 0"); only its memory safety is judged then
+        if r.random() < .3:
+            rl = r.choice([b"", b"realm", b"r" * 200]); toks.append("r" + hx(rl)); plan.append(("r",))
+        for _ in range(r.randrange(2, 12)):
+            k = r.random()
+            null = r.random() < .12
+            if k < .3 or not slots:
+                d = rnd(r, r.choice([0, 1, 5, 40]))
+                if d in used or not d and b"" in used:     # (one scripted PRNG stream per op line: equal payloads would be equal credentials)
+                    d = d + bytes([len(used)]) + rnd(r, 3)
+                used.add(d)
+                if null:
+                    toks.append("n"); plan.append(("n",))
+                loose = null or not valid
+                toks.append("e" + hx(d)); plan.append(("e", d, loose)); slots.append(None if loose else d)
+            elif k < .6:
+                j = r.randrange(len(slots))
+                if slots[j] is None:
+                    continue
+                if null:
+                    toks.append("n"); plan.append(("n",))
+                toks.append("d%d" % j); plan.append(("d", slots[j], j in decoded, null))
+                if not null:
+                    valid = j not in decoded
+                    decoded.add(j)
+            elif k < .75:
+                junk = r.choice([b"MUNGE:AAAA:", b"", b"x", b"MUNGE:" + b"A" * 300 + b":"])
+                if junk:
+                    toks.append("x" + hx(junk)); plan.append(("x",)); valid = False
+            elif k < .85:
+                toks.append("c"); plan.append(("c",))
+            elif k < .93:
+                toks.append("s"); plan.append(("s",))
+            else:
+                toks.append("t%d" % r.choice([1, 60, 3600])); plan.append(("t",))
+        toks.append("s"); plan.append(("s",))
+        uid, gid = r.choice([0, 1000, 2 ** 31, 2 ** 32 - 2]), r.randrange(2 ** 32 - 1)
+        ops.append("retry ctxseq %s now=1000000 peer=%d:%d rnd=%s mem=-" % (" ".join(toks), uid, gid, rnd(r, 24).hex()))
+        plans.append((plan, uid, gid))
+    rc, out, err = cbuild.run_lines([h, ctx.work], ["retry reset"] + ops)
+    out = out[1:]
+    ctx.count(len(ops)); ctx.dist("client_ctx_sequences", len(ops))
+    for o in ops:
+        ctx.distinct(o)
+    bad = None
+    for i, ((plan, uid, gid), l) in enumerate(zip(plans, out[:len(ops)])):
+        res = l.split(" ")
+        if len(res) != len(plan):
+            bad = bad or (i, "%d results for %d calls" % (len(res), len(plan)), l); continue
+        last_err, prev = None, None
+        for p, x in zip(plan, res):
+            f = x.split(":")
+            if p[0] in ("e", "d") and p[-1]:
+                # a NULL context means the default socket path (no daemon listens there in the sandbox: socket error); an encode
+                # on a context that holds the options of a failed decode may be refused by the daemon.  Memory safety only.
+                if p[0] == "e" and prev != "n":
+                    last_err = f[1]
+                prev = p[0]
+                continue
+            if p[0] == "e" and f[:2] != ["e", "0"]:
+                bad = bad or (i, "munge_encode on a reused context failed (%s)" % x, l)
+            if p[0] == "d":
+                if not p[2] and not (f[1] == "0" and unhx(f[2] if f[2] != "NULL" else "-") == p[1] and (int(f[3]), int(f[4])) == (uid, gid)):
+                    bad = bad or (i, "munge_decode on a reused context: %s, expected the payload of its encode and %d:%d" % (x[:80], uid, gid), l)
+                if p[2] and f[1] != "17":
+                    bad = bad or (i, "second decode of a credential on a reused context returned %s, expected REPLAYED" % f[1], l)
+            if p[0] == "x" and f[1] == "0":
+                bad = bad or (i, "munge_decode accepted garbage", l)
+            if p[0] == "c" and f[1] != "1":
+                bad = bad or (i, "munge_ctx_copy failed", l)
+            if p[0] == "c":
+                last_err = None            # the copy starts without an error condition
+            if p[0] in ("r", "t") and f[1] != "0":
+                bad = bad or (i, "munge_ctx_set failed", l)
+            if p[0] in ("r", "t"):
+                last_err = None            # munge_ctx_set clears the context's error condition
+            if p[0] in ("e", "d", "x"):
+                last_err = f[1]
+            if p[0] == "s":
+                if f[2] != "1":
+                    bad = bad or (i, "the context's socket name was lost", l)
+                # (the error text itself is not judged: munge_ctx_set / _get / _copy clear the error condition, see ctx.c)
+            prev = p[0]
+    crashed = rc != 0 or len(out) != len(ops)
+    ctx.obligation("oracle", "client side: %d call sequences on one reused munge_ctx_t (encode / decode / failing decode / copy / NULL ctx) under ASan" % len(ops),
+                   bad is None and not crashed, (bad[1] if bad else "") + (err[-1500:] if crashed else ""))
+    if bad or crashed:
+        i = bad[0] if bad else len(out)
+        ctx.violation("message codec (libmunge side): " + (bad[1] if bad else "sanitizer report / crash in a sequence of calls on one context"),
+                      {"stream": "client-ctx-reuse", "harness": "h_retry_real", "ops": ["retry reset", ops[i]] if i < len(ops) else [], "impl_output": (bad[2] if bad else err[-3000:])},
+                      found_input=True)
+
+
 def client_side(ctx):
     """"... in munged or in libmunge": the REAL munge_encode() / munge_decode() (libmunge encode.c, decode.c, ctx.c,
     m_msg_client.c over m_msg.c) receive replies chosen here - well-formed ones of every type with boundary field values
@@ -613,6 +716,9 @@ def client_side(ctx):
                     bad = bad or (i, "munge_decode returned uid/gid %s:%s, the reply says %d:%d" % (kv["uid"], kv["gid"], f["cred_uid"], f["cred_gid"]), l)
         except Exception as ex:
             bad = bad or (i, "unparsable harness output (%r)" % ex, l[:200])
+    hr = c13.build_real(ctx)         # (real HMAC: the toy MAC's 16-byte prefix collides for near-identical credentials)
+    if hr:
+        ctx_reuse(ctx, hr)
     crashed = rc != 0 or len(out) != len(ops)
     ctx.obligation("oracle", "client side: %d scripted replies through the real libmunge (munge_encode / munge_decode) under ASan/UBSan" % len(ops),
                    bad is None and not crashed, (bad[1] if bad else "") + (err[-1500:] if crashed else ""))
